@@ -85,6 +85,16 @@ func (e *Exec) rtIntrinsic(name string, fn *ssa.Function, args []Value) (Value, 
 			e.fail("HonestAttester: index must be concrete")
 		}
 		return e.nondetBytes(fmt.Sprintf("%shonest_att%d", e.namePrefix, i.i64()), 3, false, true), true
+	case "HonestAttestationBy":
+		t, ok := args[3].(*Term)
+		if !ok || !t.isConst() {
+			e.fail("HonestAttestationBy: t must be concrete")
+		}
+		n := int(t.i64())
+		s := e.nondetBytes(e.namePrefix+e.mustString(args[0], name), 65*n, false, false)
+		e.addPC(tb.Eq(s.len, tb.BV(int64(65*n), 64)))
+		s.len, s.gocap, s.minLen = tb.BV(int64(65*n), 64), tb.BV(int64(65*n), 64), 65*n
+		return s, true
 	case "HonestAttestation":
 		t, ok := args[2].(*Term)
 		if !ok || !t.isConst() {
